@@ -24,10 +24,26 @@ Section Spec.
     set_comm : forall l x y a b, ok x -> ok y -> x <> y -> vset (vset l x a) y b = vset (vset l y b) x a;
     set_get : forall l x, ok x -> vset l x (vget l x) = l }.
 
-  (** states reachable from [l0] by writes through handles of [H] *)
-  Inductive reach (H : list X) (l0 : L) : L -> Prop :=
-  | reach_nominal : reach H l0 l0
-  | reach_set : forall l x a, reach H l0 l -> In x H -> reach H l0 (vset l x a).
+  (** states reachable from [l0] by writes through handles of [H] ... *)
+  Inductive reach0 (H : list X) (l0 : L) : L -> Prop :=
+  | reach0_nominal : reach0 H l0 l0
+  | reach0_set : forall l x a, reach0 H l0 l -> In x H -> reach0 H l0 (vset l x a).
+  (** ... and by Optic.update() (pickups / solves) *)
+  Inductive reach (upd : L -> L) (H : list X) (l0 : L) : L -> Prop :=
+  | reach_nominal : reach upd H l0 l0
+  | reach_set : forall l x a, reach upd H l0 l -> In x H -> reach upd H l0 (vset l x a)
+  | reach_upd : forall l, reach upd H l0 l -> reach upd H l0 (upd l).
+
+  (** what Optic.update() is assumed to be: it rewrites "derived" coordinates (pickup targets, solved thicknesses) as a
+      function of the others.  [eqv] = equal up to derived coordinates. *)
+  Record update_laws (upd : L -> L) (H : list X) (l0 : L) (eqv : L -> L -> Prop) : Prop := {
+    eqv_refl : forall l, eqv l l;
+    eqv_sym : forall l l', eqv l l' -> eqv l' l;
+    eqv_trans : forall a b c, eqv a b -> eqv b c -> eqv a c;
+    upd_eqv : forall l, eqv (upd l) l;                              (* update only touches derived coordinates *)
+    upd_cong : forall l l', eqv l l' -> upd l = upd l';             (* and recomputes them from the others *)
+    set_cong : forall l l' x a, In x H -> eqv l l' -> eqv (vset l x a) (vset l' x a);
+    upd_nominal : upd l0 = l0 }.                                    (* the nominal lens is up to date *)
 
   (** the row recorded for a trial that applies perturbations [which] with compensation trace [tr] *)
   Definition row_spec (upd : L -> L) (ev : L -> list T) (pv cv : list (var (O:=O) X)) (l0 : L)
